@@ -269,6 +269,17 @@ func c11Body(c *core.Ctx) {
 		run(9, []byte(s), 0)
 		run(9, []byte(s), 1)
 	}
+	// Content()/Metadata() over the alphabets of the linear families (the evaluators of C05-C08 judge them)
+	enumC39C93(c, []string{"c39", "c93"}, 2)
+	enumC128(c, 3, 1, 3)
+	enumC08(c, 3, 4)
+	Words(letters("0123456789"), 7, 7, func(w string, _ int) bool {
+		if w[0] == '4' && w[1] == '0' {
+			Run(c, &core.Case{Fam: "ean", S: []byte(w)})
+		}
+		return true
+	})
+	c.R.Bound("linear_content", "Content/Metadata on all Code 39/93 words <= 2 over the full alphabets in all option mixes, Code 128 class words <= 3 and all single characters, Codabar words <= 3, 2-of-5 words <= 4, 10^5 EAN-8 inputs")
 	c.R.Bound("schemes", fmt.Sprintf("%d colour schemes over Gray, Gray16, RGBA, NRGBA, CMYK models incl. inverted, same-luminance and colours foreign to the model", len(renderSchemes)))
 	c.R.Bound("contents", "QR one numeric/alphanumeric/byte content at the capacity of each selected version x 2 levels; all 24 DataMatrix sizes; Aztec layer requests and automatic sizes; PDF417 6 lengths x 4 levels; every linear family with every flag combination")
 	c.R.Sample(map[string]any{"family": "aztec", "payload": "Az 9.", "layers": -2, "schemes": "all", "oracle": "every pixel identical to the scheme's foreground or background; module matrix equals the plain symbol's; ColorModel/ColorScheme report the scheme"})
